@@ -172,6 +172,27 @@ def run(R):
                     '(map.entry_bin("k-bin") -> Vacant -> insert_entry(v) would hand out a binary entry typed as Ascii)' % (txt, bad))
         R.floor('C08.R4', 'generic entry-API signatures', n, 30)
 
+    # ---------------------------------------------------------------- R6 merging keeps repeated values
+    R.describe('C08.R6', 'MetadataMap::merge extends the header map with the other map as a whole (HeaderMap::extend understands the None-key continuation entries of into_iter); no code in tonic iterates an owned HeaderMap by hand')
+    with R.guard('C08.R6'):
+        mg = tonic.body('metadata::map::MetadataMap::merge')
+        R.saw(mg)
+        ex = mg.calls(name='extend')
+        okm = len(ex) == 1 and field_names(mg.origin(ex[0][1]['args'][0]))[-1:] == ['headers'] and field_names(mg.origin(ex[0][1]['args'][1]))[-1:] == ['headers'] and 'arg2' in show(mg.origin(ex[0][1]['args'][1]))
+        R.check(okm, 'C08.R6', 'merge=extend(headers)', site(mg), 'merge = self.headers.extend(other.headers): %r (a hand-written `for (key, value) in other.headers` loop sees key == None for the 2nd.. value of a repeated name and drops them)' % okm)
+        offenders = []
+        for bd in tonic.bodies:
+            if bd.kind == 'promoted':
+                continue
+            for bb, t in bd.calls(name='into_iter'):
+                st = (t.get('self_ty') or '') + ' ' + (t.get('resolved') or '')
+                if re.search(r'(^|[ <])http::HeaderMap', st) and not st.strip().startswith('&'):
+                    offenders.append('%s (%s)' % (short(bd.path), bd.loc(bb)))
+        R.check(not offenders, 'C08.R6', 'no-owned-headermap-iteration', '', 'owned HeaderMap::into_iter sites in tonic (each would need to handle None keys): %r' % offenders)
+        # trailers and header metadata are merged, not replaced (client unary path, server request trailers)
+        users = sorted({short(bd.path) for bd, bb, t in call_sites_in_crate(tonic, pat='MetadataMap::merge')})
+        R.floor('C08.R6', 'merge call sites', len(users), 3)
+
     # ---------------------------------------------------------------- R5 base64 for binary values
     R.describe('C08.R5', 'Binary values: written with the no-pad engine, read with the padding-indifferent STANDARD engine (engine definitions checked in C04.R3)')
     with R.guard('C08.R5'):
